@@ -22,15 +22,16 @@
 (***************************************************************************)
 EXTENDS Persist, PersistTypes, TraceIO
 
-CONSTANT Devs      \* named deviations (known findings) -- none for C19 (all defects found have fix diffs)
+CONSTANT Devs      \* named deviations (known findings), see DevKernelSum below
 
 VARIABLES c, e,        \* case and event cursor
           hs,          \* per handle (1-based: handle k is hs[k + 1]): [armed, exempt]
           o,           \* observation history (records as in Persist part 1)
           eqs,         \* handles for which original == restored was observed TRUE (or licensed)
-          refused      \* the serialiser refused the value (only legal for the skipped role)
+          refused,     \* the serialiser refused the value (only legal for the skipped role)
+          used         \* named deviations that were needed to explain this case
 
-tvars == <<c, e, hs, o, eqs, refused>>
+tvars == <<c, e, hs, o, eqs, refused, used>>
 
 Case == Rec[c]
 In   == Case.inp
@@ -42,7 +43,7 @@ HasFnTok == In.var \in Ent.fnv       \* this configuration carries a function-po
 
 TraceInit ==
   /\ c \in 1..Len(Rec) /\ e = 1
-  /\ hs = <<>> /\ o = {} /\ eqs = {} /\ refused = FALSE
+  /\ hs = <<>> /\ o = {} /\ eqs = {} /\ refused = FALSE /\ used = {}
   \* the design-model variables are not used during trace validation
   /\ attr = <<>> /\ skipped = {} /\ val = <<>> /\ armed = <<>> /\ exempt = <<>> /\ obs = {} /\ failed = FALSE
 
@@ -53,11 +54,24 @@ TCreate ==
   /\ HasEv("create") /\ e = 1 /\ KnownType /\ Case.kind # "offer"
   /\ Ev.h = 0 /\ Ev.type = In.type /\ Ev.role = Ent.role /\ Case.kind = Ent.role
   /\ In.var \in 0..(Ent.nvar - 1)
-  /\ In.wide \in (IF Ent.wide THEN {0, 1} ELSE {0})
+  /\ In.wide \in (IF Ent.wide THEN {0, 1, 2} ELSE {0})
   /\ In.ft \in (IF Ent.gen THEN {"f32", "f64"} ELSE {"f64"}) /\ Ev.ft = In.ft
   /\ Len(In.fmts) >= 1 /\ \A i \in 1..Len(In.fmts) : In.fmts[i] \in {"bincode", "json"}
   /\ hs' = << [armed |-> TRUE, exempt |-> FALSE] >>
-  /\ Adv /\ UNCHANGED <<o, eqs, refused>>
+  /\ Adv /\ UNCHANGED <<o, eqs, refused, used>>
+
+\* Known finding "kernel-sum-follows-layout" (deviation, only when listed in Devs): Kernel::sum() of a dense
+\* kernel is ndarray's sum_axis, whose summation order follows the memory layout of the matrix; a kernel that
+\* the user assembled from a column-major matrix is restored row-major, so the row sums may round differently
+\* (an existing test pins sum() to sum_axis, so it cannot be repaired without editing a test).  The deviation
+\* licenses exactly that: type Kernel, key "sum", float class, on a restored value whose recorded layout of the
+\* inner matrix differs from the original's.  Every other key, type or an unchanged layout is still judged.
+LayoutChanged(h, key) ==
+  \E a \in o, b \in o : a.key = key /\ b.key = key /\ a.h = 0 /\ b.h = h /\ a.cls = "l" /\ b.cls = "l" /\ a.d # b.d
+DevKernelSum(x) ==
+  /\ "kernel-sum-follows-layout" \in Devs
+  /\ In.type = "Kernel" /\ x.key = "sum" /\ x.cls = "f" /\ x.st = "ok" /\ x.h > 0
+  /\ LayoutChanged(x.h, "layout.inner")
 
 \* an answer of handle Ev.h: the history extended by it must still satisfy the property
 TObs ==
@@ -68,7 +82,9 @@ TObs ==
   /\ LET x == [h |-> Ev.h, key |-> Ev.key, cls |-> Ev.cls, st |-> Ev.st, d |-> Ev.d, root |-> 0,
                armed |-> hs[Ev.h + 1].armed, exempt |-> hs[Ev.h + 1].exempt]
          o2 == o \cup {x}
-     IN /\ Extends(o, x) /\ RootsOk({x})           \* = TwinsAgree(o2) /\ RootsOk(o2), given they held for o
+     IN /\ RootsOk({x})
+        /\ \/ Extends(o, x) /\ used' = used        \* = TwinsAgree(o2) /\ RootsOk(o2), given they held for o
+           \/ ~Extends(o, x) /\ DevKernelSum(x) /\ used' = used \cup {"kernel-sum-follows-layout"}
         /\ Ev.h > 0 => Ev.key \in KeysOf(o, 0)      \* restored values are asked what the original was asked
         /\ o' = o2
   /\ Adv /\ UNCHANGED <<hs, eqs, refused>>
@@ -82,14 +98,14 @@ TRoundTrip ==
   \* the previous value was completely observed before it was sent on
   /\ KeysCovered(o, NH - 1, 0)
   /\ hs' = Append(hs, [armed |-> ~HasFnTok, exempt |-> hs[NH].exempt \/ ~Ev.lossless])
-  /\ Adv /\ UNCHANGED <<o, eqs, refused>>
+  /\ Adv /\ UNCHANGED <<o, eqs, refused, used>>
 
 \* the documented non-serialisable variant: the serialiser must refuse (never write something else)
 TRefuse ==
   /\ HasEv("rt") /\ NH = 1 /\ ~refused /\ Ent.role = "skipped"
   /\ Ev.h = 0 /\ Ev.fmt = In.fmts[1] /\ Ev.ser = "err"
   /\ refused' = TRUE
-  /\ Adv /\ UNCHANGED <<hs, o, eqs>>
+  /\ Adv /\ UNCHANGED <<hs, o, eqs, used>>
 
 \* PartialEq between the original and the newest restored value
 TEq ==
@@ -97,7 +113,7 @@ TEq ==
   /\ Ev.a = 0 /\ Ev.b = NH - 1
   /\ Ev.res \/ hs[NH].exempt                        \* equal, unless a lossy document lies in between
   /\ eqs' = eqs \cup {Ev.b}
-  /\ Adv /\ UNCHANGED <<hs, o, refused>>
+  /\ Adv /\ UNCHANGED <<hs, o, refused, used>>
 
 \* the tokenizer function is set again on the newest restored value
 TRearm ==
@@ -105,7 +121,7 @@ TRearm ==
   /\ Ev.h = NH - 1 /\ ~hs[NH].armed
   /\ KeysCovered(o, NH - 1, 0)                       \* it was observed while disarmed
   /\ hs' = [hs EXCEPT ![NH].armed = TRUE]
-  /\ Adv /\ UNCHANGED <<o, eqs, refused>>
+  /\ Adv /\ UNCHANGED <<o, eqs, refused, used>>
 
 \* "offer" cases (thorough tier): the compile-time probe built with only the owning crate's `serde` feature
 \* reports, for concrete instantiations of the catalogue type, whether Serialize / DeserializeOwned exist.
@@ -115,12 +131,12 @@ TOffer ==
   /\ HasEv("offer") /\ Case.kind = "offer" /\ KnownType
   /\ Ev.type = In.type
   /\ Ev.ser /\ Ev.de
-  /\ Adv /\ UNCHANGED <<hs, o, eqs, refused>>
+  /\ Adv /\ UNCHANGED <<hs, o, eqs, refused, used>>
 
 AcceptOffer ==
   /\ Case.kind = "offer" /\ e = Len(Case.ev) + 1 /\ Len(Case.ev) >= 1
   /\ Ok(Case.id)
-  /\ e' = e + 1 /\ UNCHANGED <<c, vars, hs, o, eqs, refused>>
+  /\ e' = e + 1 /\ UNCHANGED <<c, vars, hs, o, eqs, refused, used>>
 
 \* what a complete history owes
 Complete ==
@@ -137,8 +153,8 @@ Complete ==
 AcceptGuard == Case.kind # "offer" /\ e = Len(Case.ev) + 1 /\ NH >= 1 /\ Complete
 Accept ==
   /\ AcceptGuard
-  /\ Ok(Case.id)
-  /\ e' = e + 1 /\ UNCHANGED <<c, vars, hs, o, eqs, refused>>
+  /\ IF used = {} THEN Ok(Case.id) ELSE OkDev(Case.id, used)
+  /\ e' = e + 1 /\ UNCHANGED <<c, vars, hs, o, eqs, refused, used>>
 
 Why ==
   IF e > Len(Case.ev) THEN <<e, "incomplete history", NH, Cardinality(KeysOf(o, 0))>>
@@ -153,7 +169,7 @@ Stuck ==
   /\ ~(ENABLED TCreate \/ ENABLED TObs \/ ENABLED TRoundTrip \/ ENABLED TRefuse \/ ENABLED TEq \/ ENABLED TRearm \/ AcceptGuard
        \/ ENABLED TOffer \/ (Case.kind = "offer" /\ e = Len(Case.ev) + 1 /\ Len(Case.ev) >= 1))
   /\ Fail(Case.id, Why)
-  /\ e' = Len(Case.ev) + 2 /\ UNCHANGED <<c, vars, hs, o, eqs, refused>>
+  /\ e' = Len(Case.ev) + 2 /\ UNCHANGED <<c, vars, hs, o, eqs, refused, used>>
 
 TraceNext == TCreate \/ TObs \/ TRoundTrip \/ TRefuse \/ TEq \/ TRearm \/ Accept \/ TOffer \/ AcceptOffer \/ Stuck
 =============================================================================
